@@ -384,18 +384,29 @@ Proof.
 Qed.
 
 (* ================================================================ providers *)
-Theorem clause_emits_ok : forall rs ops,
-  Forall (fun op => (snd op < length rs)%nat) ops ->
-  clause_emits rs ops (map (fun it => match it with
-                                       | Some p => Some (match p_ref p with Some i => Z.of_nat i | None => -1 end, obs_of (p_res p))
-                                       | None => None
-                                       end) (run_emits (resources_of rs) ops)) = [].
+Definition to_pobs (it : option (pitem * bool)) : pobs :=
+  match it with
+  | Some (p, has_data) => Some (match p_ref p with Some i => Z.of_nat i | None => -1 end, obs_of (p_res p), has_data)
+  | None => None
+  end.
+
+Theorem clause_emits_ok : forall rs ops st,
+  Forall (fun op => match observed op with Some i => (i < length rs)%nat | None => True end) ops ->
+  clause_emits rs ops (map to_pobs (run_pops (resources_of rs) st ops)) = [].
 Proof.
-  intros rs ops H. induction H as [|[sg i] ops Hi H IH]; [reflexivity|].
-  cbn [run_emits map clause_emits snd]. unfold emit at 1. cbn [snd].
-  unfold resources_of at 1. rewrite nth_error_map.
-  destruct (nth_error rs i) as [[attrs schema]|] eqn:E; [|apply nth_error_None in E; cbn in Hi; lia].
-  cbn [option_map p_ref p_res fst snd]. rewrite Z.eqb_refl. cbn [check app].
-  assert (X : (Z.of_nat i <? 0) = false) by lia. rewrite X. rewrite clause_new_ok. cbn [app].
-  exact IH.
+  intros rs ops. induction ops as [|op ops IH]; intros st H; [reflexivity|].
+  inversion H as [|? ? Hop Hops]; subst.
+  assert (X : forall sg i d, observed op = Some i -> pop_target op = Some (sg, i) ->
+              clause_emits rs (op :: ops) (to_pobs (item_of (resources_of rs) i d) :: map to_pobs (run_pops (resources_of rs) st ops)) = []).
+  { intros sg i d Ho Ht. rewrite Ho in Hop. cbn [clause_emits]. rewrite Ht.
+    unfold item_of, resources_of at 1. rewrite nth_error_map.
+    destruct (nth_error rs i) as [[attrs schema]|] eqn:E; [|apply nth_error_None in E; lia].
+    cbn [option_map to_pobs p_ref p_res fst snd]. rewrite Z.eqb_refl. cbn [check app].
+    assert (Y : (Z.of_nat i <? 0) = false) by lia. rewrite Y. rewrite clause_new_ok. cbn [app]. now apply IH. }
+  destruct op as [sg i|i|i|i|d i]; cbn [run_pops pstep app map].
+  - apply (X sg i true); reflexivity.
+  - cbn [clause_emits pop_target]. now apply IH.
+  - cbn [clause_emits pop_target]. now apply IH.
+  - cbn [clause_emits pop_target]. now apply IH.
+  - apply (X SigMetric i _); reflexivity.
 Qed.
